@@ -20,7 +20,9 @@ def decode(x):
 def run(rep, profile=False):
     import param
     import numbergen
-    assert param.__file__.startswith('/repo/') and numbergen.__file__.startswith('/repo/'), param.__file__
+    import os
+    repo = os.environ.get('VERIF_REPO', '/repo').rstrip('/') + '/'
+    assert param.__file__.startswith(repo) and numbergen.__file__.startswith(repo), param.__file__
     assert 'crosshair' not in sys.modules
     from sx import api
     mod = importlib.import_module(rep['module'])
@@ -31,8 +33,8 @@ def run(rep, profile=False):
         def prof(frame, event, arg):
             if event == 'call':
                 f = frame.f_code.co_filename
-                if f.startswith('/repo/'):
-                    funcs.add('%s:%s' % (f[len('/repo/'):], frame.f_code.co_qualname))
+                if f.startswith(repo):
+                    funcs.add('%s:%s' % (f[len(repo):], frame.f_code.co_qualname))
         sys.setprofile(prof)
     out = {}
     try:
